@@ -90,6 +90,13 @@ def cases(tier, seed):
         for a in args:
             for kind in (('tt', 'ttm') if what in ('add', 'sub', 'mul', 'matmul', 'truediv') else ('tt',)):
                 cs.append({'scen': 'c18_types', 's': {'what': what, 'arg': a, 'kind': kind, 'd': 2, 'B': 2, 'class_check': what not in ('getitem', 'set_core')}})
+    # AMEn entry points: guards on kinds / squareness / sizes
+    for what in ('amen_solve', 'amen_mv'):
+        for d in (1, 2):
+            cs.append({'scen': 'c18_solver_guards', 's': {'what': what, 'd': d, 'B': B}})
+            cs.append({'scen': 'c18_solver_guards', 's': {'what': what, 'd': d, 'kA': 'tt', 'B': B}})
+            cs.append({'scen': 'c18_solver_guards', 's': {'what': what, 'd': d, 'kb': 'ttm', 'B': B}})
+        cs.append({'scen': 'c18_solver_guards', 's': {'what': what, 'd': 2, 'db': 1, 'B': B}})
     # constructor from cores
     for d in (1, 2, 3):
         for nds in itertools.product((2, 3, 4, 5), repeat=d):
